@@ -1,14 +1,35 @@
-(* Props/C15.v -- placeholder until the parser proofs land: entry points agree definitionally. *)
-From JsonSyntax Require Import Base.Prelude Base.Value Base.Unicode Model.Parser Model.EntryPoints.
+(* Props/C15.v -- unordered equality is exactly equality up to permutation of object
+   entries.  Statements only.  Specification: Spec/PermEq.v. *)
+From JsonSyntax Require Import Base.Prelude Base.Value Model.Unordered Spec.PermEq Proofs.UnorderedProofs.
 
-Theorem C15_entry_points_text : forall cs,
-  parse_str cs = parse_str_with strict cs /\
-  parse_str cs = parse_utf8 cs /\
-  parse_str cs = parse_utf8_with strict cs /\
-  parse_str cs = parse_infallible_utf8 cs /\
-  parse_str cs = parse_utf8_infallible_with strict cs /\
-  parse_str cs = parse (chars cs) /\
-  parse_str cs = parse_with strict (chars cs).
-Proof. exact (fun cs => conj eq_refl (conj eq_refl (conj eq_refl (conj eq_refl (conj eq_refl (conj eq_refl eq_refl)))))). Qed.
+Theorem C15_unordered_eq_iff_permeq : forall a b, unordered_eq a b = true <-> PermEq a b.
+Proof. exact C15_unordered_eq_iff. Qed.
+Theorem C15_wrapper : forall a b, unordered_wrapper_eq a b = true <-> PermEq a b.
+Proof. exact unordered_wrapper_eq_iff. Qed.
 
-Print Assumptions C15_entry_points_text.
+(* an equivalence relation implied by ordinary equality *)
+Theorem C15_refl : forall a, PermEq a a.
+Proof. exact permeq_refl. Qed.
+Theorem C15_sym : forall a b, PermEq a b -> PermEq b a.
+Proof. exact permeq_sym. Qed.
+Theorem C15_trans : forall a b c, PermEq a b -> PermEq b c -> PermEq a c.
+Proof. exact permeq_trans. Qed.
+Theorem C15_eq_implies : forall a b, a = b -> PermEq a b.
+Proof. exact eq_implies_permeq. Qed.
+Theorem C15_symmetric_result : forall a b, unordered_eq a b = unordered_eq b a.
+Proof. exact unordered_eq_sym. Qed.
+
+(* multiplicities count (the witness of the repaired defect) *)
+Example C15_multiplicities_count :
+  let k := [0x6B] in let one := VNum [0x31] in let two := VNum [0x32] in
+  unordered_eq (VObj [(k, one); (k, one); (k, two)]) (VObj [(k, one); (k, two); (k, two)]) = false.
+Proof. exact multiplicities_count. Qed.
+
+Print Assumptions C15_unordered_eq_iff_permeq.
+Print Assumptions C15_wrapper.
+Print Assumptions C15_refl.
+Print Assumptions C15_sym.
+Print Assumptions C15_trans.
+Print Assumptions C15_eq_implies.
+Print Assumptions C15_symmetric_result.
+Print Assumptions C15_multiplicities_count.
